@@ -32,6 +32,24 @@ chk('C02', "Coq theorems over EVERY history of the 14 relayer/bridge operations:
   TB + " Rollback of failed transactions is cosmos-sdk behaviour, exercised by the harness through a cache-wrapped context.",
   "Coq proof (per-operation frame lemmas, induction over histories) + differential histories with verbatim replays of accepted votes + sequence monitor")
 
+chk('C03', "Coq theorems: everything an accepted deposit guarantees - registered key, voted hash of the 80-byte header, coinbase maturity, strict parse, not credited before, minimum, script bound to key+EVM address (v0 P2WSH/taproot, v1 P2WPKH+OP_RETURN), SPV inclusion, amount+tax=value with the tax formula (C03_accept_sound, C03_tax_formula, C03_value_exact); the list of all credits along ANY history has no duplicates (C03_once); position binding of the SPV proof up to an exhibited collision (C03_position_binding, from C04).",
+  TB + " btcd parsing trusted; hash160 / taproot tweak supplied by the harness; SHA-256 abstract.",
+  "Coq proof (case analysis of verify_deposit; monotone 'deposited' invariant by induction over histories using generated frame theorems) + differential histories with btcd-built blocks + deposit monitor")
+chk('C05', "Coq theorems: every operation moves every withdrawal id along allowed edges only (C05_edges, for fresh request ids), paid and cancelled are terminal for every continuation (C05_terminal_forever), and the exact terms under which a withdrawal becomes processing - pending or cancel-requested before, output pays exactly the decoded address script, value <= requested, fee <= max price x size, receipt names that output (C05_processing_terms). Exactly-one notice is checked by the monitor (partial).",
+  TB + " Address decoding is btcd's (oracle supplied with the request); fee-rate modelled exactly.",
+  "Coq proof (per-loop transition relations, generated frame theorems, induction over histories) + differential histories + edge / notice / terms monitors")
+chk('C06', "Coq theorems: exact shape of one hand-over of the bridge module (one hash at most, <=8 deposits, <=8 paid+refund, FIFO, queue = taken ++ rest, consecutive nonces, nothing persisted when nothing is due: C06_bridge_handover, C06_nonces_consecutive) and of the locking module (C06_locking_handover); for EVERY history the voted heights are exactly lo..tip, the cursor stays inside, stored hashes never change (C06_hashes_append_only), hand-over never fails on such a chain (C06_handover_total). Payload-level acceptance and 'unfinalised rounds consume nothing' are exercised at application level.",
+  TB, "Coq proof (queue arithmetic, chain invariant by induction over histories) + differential histories of both modules + FIFO / nonce / gap monitors")
+chk('C13', "Coq theorem C13_refines: on every state with a well-formed ranking and recorded set the end-of-block logic never fails and its reported updates, applied as CometBFT applies them, turn the old recorded set into the new one; no zero-power addition, no removal of a non-member, no duplicate, members positive (C13_walk: at most max-validators changes in ranking order). PARTIAL: preservation of the well-formedness invariants by every operation is checked by model comparison + the real CometBFT ValidatorSet as oracle on every history, not yet by an inductive Coq proof.",
+  TB + " Assumes no uint64 wrap / total power overflow (known finding) and a non-empty set.",
+  "Coq proof (induction over the ranking walk) + differential histories with the real cometbft ValidatorSet.UpdateWithChangeSet as acceptance oracle + top-K monitor")
+chk('C15', "Coq theorems: an unlock is queued at now + unlock duration, or now + exit duration when exiting, and an exiting validator leaves the candidate set at once (C15_delay_and_exit); only entries with key <= block time are released, in ascending key order, exactly once (C15_release_mature_only, C15_maturity_order); hand-over is FIFO with cap 16 (C15_handover_fifo). PARTIAL: the end-to-end delay over whole histories is checked by the implementation-side monitor.",
+  TB + " Block times non-decreasing; ExitingDuration >= UnlockDuration.",
+  "Coq proof (step characterisations) + differential histories + delay/once monitor")
+chk('C16', "Coq theorems: joining needs both possession proofs over the sign-doc bound to chain/epoch/proposer/height/address/key hash and leaves the group untouched until an election (C16_join_needs_proofs); the epoch increments exactly when the election is due, by one (C16_election_iff); membership fields change only through request lists, registrations and elections (C16_membership_frame, C16_requests_only_queue); queued removals never exceed the voters (C16_removals_never_empty). PARTIAL: the full group invariant and totality of the election step are checked by the monitor and the model comparison.",
+  TB + " ECDSA/BLS possession proofs symbolic.",
+  "Coq proof (case analysis, generated frame theorems) + differential histories with real keys and proofs + group / election monitors")
+
 import sys
 props = [json.loads(l)['id'] for l in open('/verif/properties.jsonl')]
 m = {"version": 1, "setup_cmd": "bin/setup",
